@@ -231,6 +231,7 @@ class UdpWorld:
         self.emissions: List[Emission] = []
         self._current: Optional[Arrival] = None
         self.assoc_owner: Dict[Addr, ViewerStub] = {}
+        self.corrupted = set()   # datagram payloads whose body the harness damaged in flight
         self.rx_hooks: List[Callable] = []
         self.arrival_hooks: List[Callable[[Arrival], None]] = []   # after the proxy handled it
         self.emission_hooks: List[Callable[[Emission], None]] = []
